@@ -49,7 +49,20 @@ var opts = map[int][]layers.IPv4Option{
 // of the interleaving family only)
 var otherKey int
 
+// header modes above 100 are mixed: first*100+rest, the first fragment (offset 0) carries a
+// header of `first` bytes (all options), the others one of `rest` bytes (only the copied ones)
+func hdrOf(f frag, ihlBytes int) int {
+	if ihlBytes > 100 {
+		if f.a == 0 {
+			return ihlBytes / 100
+		}
+		return ihlBytes % 100
+	}
+	return ihlBytes
+}
+
 func mk4(f frag, ihlBytes int) *layers.IPv4 {
+	ihlBytes = hdrOf(f, ihlBytes)
 	n := (f.b - f.a) * unit
 	pl := make([]byte, n)
 	for i := range pl {
@@ -170,7 +183,7 @@ func (c *ctx) benign(arrivals []frag, ihl int, nIDs int, totals []int) {
 			if len(out.Payload) != totals[f.id]*unit {
 				c.fail("benign|payload-length-wrong"+key, fmt.Sprintf("%d bytes returned, the datagram has %d", len(out.Payload), totals[f.id]*unit), int64(len(arrivals)), ex())
 			}
-			if int(out.IHL)*4 != ihl {
+			if int(out.IHL)*4 != ihl && !(ihl > 100 && (int(out.IHL)*4 == ihl/100 || int(out.IHL)*4 == ihl%100)) {
 				c.fail("benign|header-length-changed"+key, fmt.Sprintf("IHL %d", out.IHL), int64(len(arrivals)), ex())
 			}
 		}
@@ -532,7 +545,7 @@ func main() {
 	}
 	c := &ctx{r: r}
 	maxN, hostN, hostDepth, v6N := 7, 6, 4, 6
-	hdrs := []int{20, 24, 40, 60}
+	hdrs := []int{20, 24, 40, 60, 2420, 4024, 6020}
 	if r.Thorough() {
 		maxN, hostN, hostDepth, v6N = 8, 6, 5, 7
 	}
@@ -551,7 +564,7 @@ func main() {
 	r.Coverage["hostile_fragment_sequences"] = e2 - e1
 	r.Coverage["limit_discard_and_ipv6_sequences"] = e3 - e2
 	r.Coverage["samples"] = []any{map[string]any{"family": "benign", "header_bytes": 24, "arrivals": "[id0[2,3)+MF id0[0,2)+MF id0[3,6)]"}, map[string]any{"family": "hostile", "fragments": "[id0[0,2)+MF id0[3,4) id0[1,2)+MF]"}}
-	r.Coverage["rule"] = fmt.Sprintf("benign: every composition of N=1..%d 8-byte units into >=2 fragments x every arrival order x header length {20,24,40,60} (options) x one duplicated fragment at every position, and for N<=3 every merge with the two fragments of a second datagram: nothing may be returned before the last missing fragment, then exactly one datagram whose payload bytes (which encode datagram id and offset) are the original, MF/offset cleared, Length = IHL*4+len(payload). hostile: every sequence of <=%d fragments over all [a,b)xMF for a %d-unit datagram: any datagram returned must consist only of bytes sent for their own offset, all of them received, ending at a seen last fragment. limits: undersized/oversize/overrun fragments refused, unfragmented and DF packets returned as the same pointer, DiscardOlderThan. IPv6: all compositions x orders for N<=%d with duplicates. distinct_nontrivial = distinct hostile completion lengths + families.", maxN, hostDepth, hostN, v6N)
+	r.Coverage["rule"] = fmt.Sprintf("benign: every composition of N=1..%d 8-byte units into >=2 fragments x every arrival order x header length {20,24,40,60} (options on every fragment) and {24|20, 40|24, 60|20} (first fragment | later fragments: options that are not copied) x one duplicated fragment at every position, and for N<=3 every merge with the two fragments of a second datagram: nothing may be returned before the last missing fragment, then exactly one datagram whose payload bytes (which encode datagram id and offset) are the original, MF/offset cleared, Length = IHL*4+len(payload). hostile: every sequence of <=%d fragments over all [a,b)xMF for a %d-unit datagram: any datagram returned must consist only of bytes sent for their own offset, all of them received, ending at a seen last fragment. limits: undersized/oversize/overrun fragments refused, unfragmented and DF packets returned as the same pointer, DiscardOlderThan. IPv6: all compositions x orders for N<=%d with duplicates. distinct_nontrivial = distinct hostile completion lengths + families.", maxN, hostDepth, hostN, v6N)
 	r.Assumptions = []string{"provenance encoding: payload byte = id<<6 | offset (datagrams of at most 64 bytes)", "8193-fragment list limit exercised with 8183 distinct fragments only (offset limit)"}
 	r.Finish()
 }
